@@ -52,6 +52,13 @@ def fault_pool(ctx):
         sp = gen.make_spec(rng, D=rng.choice([1, 2]), geom="box", mode=mode, cons=None, target="quad")
         sp["options"] = {"n_search": 32, "max_fun_evals": (sp["D"] + 24) if mode == "det" else 58, "noise_final_samples": 3, "use_slice_sampler": True}
         specs.append(sp)
+    # the accepted forms of the noise nudge of the retry loop (unset, empty, one entry, two entries), deterministic and noisy
+    for mode, nn in (("det", "None"), ("det", "np.array([])"), ("decl", "np.array([1.0])"), ("det", "np.array([0.5])")) + \
+            (() if ctx.quick else (("he", "None"), ("decl", "np.array([])"), ("det", "np.array([0.5, 0.1])"), ("he", "np.array([2.0])"))):
+        sp = gen.make_spec(rng, D=rng.choice([1, 2]), geom="box", mode=mode, cons=None, target="quad")
+        sp["options"] = {"n_search": 32, "max_fun_evals": (sp["D"] + 24) if mode == "det" else 58, "noise_final_samples": 3}
+        sp["np_options"] = {"noise_nudge": nn}
+        specs.append(sp)
     clean = tracer.cached("c16clean", ctx.seed, ctx.tier, lambda: [(sp, {"want": ("ctl", "gp")}) for sp in specs])
     jobs, meta = [], []
     for sp, t in zip(specs, clean):
